@@ -11,6 +11,7 @@ def run(c):
     c07.late_record(c, "C03")
     # ... nor because an elevated caller's reset connection from the same source port is still in the accept queue
     c07.burst_reuse_check(c, "C03", 100 if c.tier != "thorough" else 400)
+    group_members(c)
     # "not running elevated" is what the kernel program records: is-root must be (uid == 0) for every caller, uid != gid
     # included (linux-ebpf/ebpf_cgroup.c in the user-space shim, judged by spec/trace/EbpfTrace.tla; shared with C06)
     from checks import c06
@@ -19,6 +20,47 @@ def run(c):
                                     "record-under-other-key"):
             c.violation("the kernel program's record misstates whether the caller runs elevated: " + f["whats"][0],
                         {"kind": "kernel-record-misstates-elevation"}, {"witness": f.get("witness"), "sites": f["sites"]})
+
+
+def group_members(c):
+    """'not running elevated' is the kernel's record (uid 0), not the account's groups: daemon and bin are made members of
+    root / sudo / wheel / adm / Administrators in a private /etc/group of the run; their connects (record: not elevated) to
+    WireServer and HostGAPlugin must be answered 403 and nothing relayed, with no rules and with allow-everything rules in
+    audit mode.  Judged by spec/trace/RootOnlyTrace."""
+    from vlib import rig, util
+    from vlib.ctx import validate_trace
+    groups = {"root": ["daemon", "bin"], "sudo": ["daemon", "bin"], "wheel": ["bin"], "adm": ["daemon"], "Administrators": ["bin"]}
+    steps, meta = [], {}
+    n = 0
+    for rnd_ in range(2):
+        for uid, adm in ((1, 0), (2, 0), (0, 1)):
+            for dest, port, target in (("ws", 80, "/machine?comp=goalstate"), ("ga", 32526, "/vmSettings")):
+                n += 1
+                cn, rid = "gm%d" % n, "gm%d_r" % n
+                steps += [{"op": "connect", "conn": cn, "attr": {"uid": uid, "admin": adm, "dip": "168.63.129.16", "dport": port}, "wait": True},
+                          {"op": "request", "conn": cn, "id": rid, "method": "GET", "target": target, "headers": [["Host", "h"]]},
+                          {"op": "close", "conn": cn}]
+                meta[rid] = {"dest": dest, "kernelElevated": bool(adm), "uid": uid}
+    ev, _, _ = rig.run_rig({"steps": steps, "drain_ms": 200, "etc_group": groups}, "c03_groups", timeout=300)
+    resp = {e["id"]: e for e in ev if e["e"] in ("Response", "ResponseError")}
+    relayed = {e["id"] for e in ev if e["e"] == "HostRecv"}
+    rows = []
+    for rid, m in meta.items():
+        if rid not in resp:
+            raise util.ToolError("group-membership scenario: no response recorded for %s" % rid)
+        rows.append({"e": "req", "id": rid, "dest": m["dest"], "kernelElevated": m["kernelElevated"], "uid": m["uid"],
+                     "status": resp[rid].get("status", 0), "relayed": rid in relayed})
+    c.extra["group_membership_requests"] = len(rows)
+    c.count(n=len(rows))
+    ok, why, res = validate_trace(c, "RootOnlyTrace", "RootOnlyTrace.cfg", rows, "c03_groups", count=1, timeout=300)
+    if ok:
+        return
+    if "P_C03_RootOnly" not in why:
+        raise util.ToolError("group-membership scenario: %s (the elevated control was not served, or the trace was not followed)" % why)
+    bad = [r for r in rows if not r["kernelElevated"] and (r["relayed"] or r["status"] != 403)]
+    c.violation("a caller the kernel recorded as not elevated (uid %d), whose account is a member of the groups %s, was not refused "
+                "by the root-only endpoint %s: status %s, relayed %s" % (bad[0]["uid"], sorted(groups), bad[0]["dest"], bad[0]["status"], bad[0]["relayed"]),
+                {"kind": "elevation-from-group-membership"}, {"rows": rows, "etc_group": groups})
 
 
 def replay(c, path):
